@@ -71,6 +71,24 @@ theorem core_cbThen (c : Ctx) (s : St) (obs : List Obs) (frames : Nat → List F
   · exact hk _ _
   · simp
 
+theorem core_cbCall (c : Ctx) (cb : Cb) (n : Node) (s : St) (obs : List Obs) (frames : Nat → List Frame)
+    (kOk : St → List Obs → Out) (kErr : Exc → St → List Obs → Out)
+    (hk : ∀ s' obs', (kOk s' obs').1.core = s'.core) (he : ∀ e s' obs', (kErr e s' obs').1.core = s'.core) :
+    (cbCall c cb n s obs frames kOk kErr).1.core = s.core := by
+  unfold cbCall
+  split
+  · exact he _ _ _
+  · exact core_cbThen _ _ _ _ _ _ hk
+
+@[simp] theorem core_nodeCbRaise (c : Ctx) (s : St) (obs : List Obs) (d : DagRef) (n : Node) (below : List Frame)
+    (e : Exc) : (nodeCbRaise c s obs d n below e).1.core = s.core := by
+  simp [nodeCbRaise]
+
+@[simp] theorem core_nodeCbRaiseInTry (c : Ctx) (s : St) (obs : List Obs) (d : DagRef) (n : Node) (below : List Frame)
+    (e : Exc) : (nodeCbRaiseInTry c s obs d n below e).1.core = s.core := by
+  simp [nodeCbRaiseInTry]
+
+
 @[simp] theorem core_nodeFinish (c : Ctx) (s : St) (obs : List Obs) (d : DagRef) (n : Node) (below : List Frame) :
     (nodeFinish c s obs d n below).1.core = s.core := by
   simp [nodeFinish]
@@ -86,7 +104,7 @@ theorem core_cbThen (c : Ctx) (s : St) (obs : List Obs) (frames : Nat → List F
   unfold nodePost
   simp only []
   split
-  · rw [core_cbThen _ _ _ _ _ _ (fun s' obs' => core_nodeFinish _ _ _ _ _ _)]
+  · rw [core_cbCall _ _ _ _ _ _ _ _ (fun s' obs' => core_nodeFinish _ _ _ _ _ _) (fun e s' obs' => core_nodeCbRaise _ _ _ _ _ _ _)]
     simp
   · simp
 
@@ -98,12 +116,12 @@ theorem core_cbThen (c : Ctx) (s : St) (obs : List Obs) (frames : Nat → List F
 @[simp] theorem core_nodeFail (c : Ctx) (s : St) (obs : List Obs) (d : DagRef) (n : Node) (below : List Frame)
     (e : Exc) : (nodeFail c s obs d n below e).1.core = s.core := by
   unfold nodeFail
-  exact core_cbThen _ _ _ _ _ _ (fun s' obs' => core_nodeFailCont _ _ _ _ _ _ _)
+  exact core_cbCall _ _ _ _ _ _ _ _ (fun s' obs' => core_nodeFailCont _ _ _ _ _ _ _) (fun e s' obs' => core_nodeCbRaise _ _ _ _ _ _ _)
 
 @[simp] theorem core_nodeSuccess (c : Ctx) (s : St) (obs : List Obs) (d : DagRef) (n : Node) (below : List Frame)
     (v : Val) : (nodeSuccess c s obs d n below v).1.core = s.core := by
   unfold nodeSuccess
-  exact core_cbThen _ _ _ _ _ _ (fun s' obs' => core_nodePost _ _ _ _ _ _ _ _)
+  exact core_cbCall _ _ _ _ _ _ _ _ (fun s' obs' => core_nodePost _ _ _ _ _ _ _ _) (fun e s' obs' => core_nodeCbRaiseInTry _ _ _ _ _ _ _)
 
 @[simp] theorem core_nodeDefault (c : Ctx) (s : St) (obs : List Obs) (d : DagRef) (n : Node) (below : List Frame)
     (kw : Kwargs) : (nodeDefault c s obs d n below kw).1.core = s.core := by
@@ -124,7 +142,7 @@ theorem core_cbThen (c : Ctx) (s : St) (obs : List Obs) (frames : Nat → List F
   · simp
   · simp only []
     repeat' split
-    all_goals (first | simp | exact core_cbThen _ _ _ _ _ _ (fun s' obs' => core_nodeSleep _ _ _ _ _ _ _ _ _ _))
+    all_goals (first | simp | exact core_cbCall _ _ _ _ _ _ _ _ (fun s' obs' => core_nodeSleep _ _ _ _ _ _ _ _ _ _) (fun e s' obs' => core_nodeCbRaiseInTry _ _ _ _ _ _ _))
 
 @[simp] theorem core_nodeAttempt (c : Ctx) (s : St) (obs : List Obs) (d : DagRef) (n : Node) (force : Bool)
     (below : List Frame) (k : Nat) (kw : Kwargs) (inv : Nat) :
@@ -187,7 +205,7 @@ open MLPE
   unfold mgrComplete
   split
   · simp
-  · exact core_cbThen _ _ _ _ _ _ (fun s' obs' => core_mgrReturn _ _ _ _)
+  · exact core_cbCall _ _ _ _ _ _ _ _ (fun s' obs' => core_mgrReturn _ _ _ _) (fun e s' obs' => core_mgrReturn _ _ _ _)
 
 @[simp] theorem core_mgrFinish (c : Ctx) (s : St) (obs : List Obs) : (mgrFinish c s obs).1.core = s.core := by
   simp [mgrFinish]
@@ -203,7 +221,7 @@ open MLPE
 
 @[simp] theorem core_mgrStart (c : Ctx) (s : St) (obs : List Obs) : (mgrStart c s obs).1.core = s.core := by
   unfold mgrStart
-  exact core_cbThen _ _ _ _ _ _ (fun s' obs' => core_mgrBegin _ _ _)
+  exact core_cbCall _ _ _ _ _ _ _ _ (fun s' obs' => core_mgrBegin _ _ _) (fun e s' obs' => core_mgrReturn _ _ _ _)
 
 @[simp] theorem core_deliverCancel (c : Ctx) (s : St) (tk : Task) : (deliverCancel c s tk).1.core = s.core := by
   unfold deliverCancel
